@@ -101,10 +101,14 @@ pub fn last_panic_loc() -> String {
     // a panic raised on a worker thread and re-raised here: fall back to the last one seen
     LAST_PANIC_LOC.lock().map(|g| g.clone()).unwrap_or_default()
 }
-/// Strip the absolute prefix so signatures are stable: "/repo/src/x.rs:12" -> "src/x.rs"
+/// Strip the absolute prefix so signatures are stable wherever the subject tree lives:
+/// "/repo/src/x.rs:12" and "/tmp/copy/src/x.rs:12" -> "src/x.rs"
 pub fn panic_site() -> String {
     let l = last_panic_loc();
-    let l = l.strip_prefix("/repo/").unwrap_or(&l).to_string();
+    let l = match (l.starts_with('/'), l.rfind("/src/")) {
+        (true, Some(i)) => l[i + 1..].to_string(),
+        _ => l,
+    };
     // drop the line number: line numbers move with unrelated edits
     match l.rfind(':') {
         Some(i) => l[..i].to_string(),
